@@ -1,7 +1,7 @@
 """C05 — non-anticipation: the p-value after j draws depends only on those j draws."""
 import numpy as np
 
-from . import common as C, nnm
+from . import common as C, nnm, genarith
 
 ANCHORS = nnm.ANCHORS
 
@@ -46,6 +46,7 @@ def run(ctx, res):
     if getattr(ctx, "replay", None):
         nnm.run_replay(ctx, res, None)
         return
+    genarith.regenerate(ctx.pid, "nnm_estims", res)   # whole-function skeletons of sjm, welford_mean_var, the estimators and bets
     cases, cr = nnm.run_corr(ctx.pid, ctx.rng, ctx.n(500, 6000), maxlen=ctx.n(12, 14))
     res.corr.append(("NonnegMean.test/estim/bet vs NNM.run_test/run_estim/run_bet", cr, nnm.case_json))
     res.evaluations += len(cases)
